@@ -355,10 +355,63 @@ impl Drop for Scratch {
     }
 }
 
+/// World paths are strings; `%XX` with XX >= 80 (hex) stands for that raw byte, so that file
+/// names that are not valid UTF-8 can be written down.
+pub fn real_path(escaped: &str) -> std::path::PathBuf {
+    use std::os::unix::ffi::OsStringExt;
+    let b = escaped.as_bytes();
+    let mut out = Vec::with_capacity(b.len());
+    let mut i = 0;
+    while i < b.len() {
+        if b[i] == b'%' && i + 3 <= b.len() {
+            let hex = |c: u8| (c as char).to_digit(16).map(|d| d as u8);
+            if let (Some(hi), Some(lo)) = (hex(b[i + 1]), hex(b[i + 2])) {
+                let v = hi * 16 + lo;
+                if v >= 0x80 {
+                    out.push(v);
+                    i += 3;
+                    continue;
+                }
+            }
+        }
+        out.push(b[i]);
+        i += 1;
+    }
+    std::ffi::OsString::from_vec(out).into()
+}
+
+/// The inverse: a path as a string, bytes that are not UTF-8 written as `%XX`.
+pub fn escaped_path(p: &Path) -> String {
+    use std::os::unix::ffi::OsStrExt;
+    let bytes = p.as_os_str().as_bytes();
+    match std::str::from_utf8(bytes) {
+        Ok(s) => s.to_string(),
+        Err(_) => {
+            let mut out = String::new();
+            let mut rest = bytes;
+            while !rest.is_empty() {
+                match std::str::from_utf8(rest) {
+                    Ok(s) => {
+                        out.push_str(s);
+                        break;
+                    }
+                    Err(e) => {
+                        let (good, bad) = rest.split_at(e.valid_up_to());
+                        out.push_str(std::str::from_utf8(good).unwrap_or(""));
+                        out.push_str(&format!("%{:02X}", bad[0]));
+                        rest = &bad[1..];
+                    }
+                }
+            }
+            out
+        }
+    }
+}
+
 fn materialise(base: &Path, nodes: &[Node]) {
     // Directories and files first, symlinks last; parents are created on demand.
     for node in nodes {
-        let p = base.join(node.path());
+        let p = base.join(real_path(node.path()));
         if let Some(parent) = p.parent() {
             let _ = std::fs::create_dir_all(parent);
         }
@@ -383,7 +436,7 @@ pub fn snapshot(dir: &Path) -> BTreeMap<String, Snap> {
         };
         for e in rd.flatten() {
             let p = e.path();
-            let rel = p.strip_prefix(base).unwrap().to_string_lossy().into_owned();
+            let rel = escaped_path(p.strip_prefix(base).unwrap());
             let Ok(ft) = e.file_type() else { continue };
             if ft.is_dir() {
                 out.insert(rel, Snap::Dir);
@@ -489,7 +542,7 @@ fn drive(
         match op {
             ApiOp::AddFile(i) => {
                 let Some((rel, _)) = files.get(*i) else { continue };
-                state.add_file(in_path, &in_path.join(rel))?;
+                state.add_file(in_path, &in_path.join(real_path(rel)))?;
             }
             ApiOp::AddStr(i) => {
                 let Some((rel, content)) = files.get(*i) else { continue };
